@@ -805,9 +805,11 @@ def method(fr, recv, recv_node, name, args, kw, extra, n):
             d = dict(recv[1])
             v = d.pop(a0[1], None)
             rebind(('dict', tuple(sorted(d.items(), key=lambda kv: repr(kv[0])))))
-            ctx.event('mutate', 'pop', (recv, a0), guard=guard, loops=loops, where=where, extra={'target': ast.unparse(recv_node)})
+            ctx.event('mutate', 'pop', (recv, a0), guard=guard, loops=loops, where=where,
+                      extra={'target': ast.unparse(recv_node), 'element_of': fr.loop_alias.get(recv_node.id) if isinstance(recv_node, ast.Name) else None})
             return default if v is None else v
-        ctx.event('mutate', 'pop', (recv, a0), guard=guard, loops=loops, where=where, extra={'target': ast.unparse(recv_node)})
+        ctx.event('mutate', 'pop', (recv, a0), guard=guard, loops=loops, where=where,
+                      extra={'target': ast.unparse(recv_node), 'element_of': fr.loop_alias.get(recv_node.id) if isinstance(recv_node, ast.Name) else None})
         if fr.is_place(recv_node):
             fr.place_set(recv_node, ('dictdel', recv, a0))
         return ('dictget', recv, a0, default)
@@ -816,9 +818,11 @@ def method(fr, recv, recv_node, name, args, kw, extra, n):
         v = d.pop(a0[1], ('missing', a0[1]))
         rebind(('table', tuple(sorted(d.items())), recv[2]))
         return v
-    if name == 'update' and tag == 'dict' and a0 is not None and a0[0] == 'dict':
+    if name == 'update' and tag == 'dict' and (a0 is None or a0[0] == 'dict') and (a0 is not None or kw):
         d = dict(recv[1])
-        d.update(dict(a0[1]))
+        if a0 is not None:
+            d.update(dict(a0[1]))
+        d.update(kw)                      # d.update(k=v, ...) / d.update(other, k=v)
         rebind(('dict', tuple(sorted(d.items(), key=lambda kv: repr(kv[0])))))
         return NONE
     if name == 'append' and a0 is not None:
